@@ -214,7 +214,9 @@ def selftest(ctx):
             # an edge between two native instructions vanishes (an edge inside a multi-block instruction, e.g. the
             # two arms of slt, is invisible at the native level - that is C02/C05's subject - and is left alone)
             byid = {x["i"]: [a for a in x["ins"] if a[0] % 4 == 0] for x in e["blocks"]}
-            idx = [k for k, ed in enumerate(e["edges"]) if byid.get(ed["h"]) and byid.get(ed["t"]) and byid[ed["h"]][-1] != byid[ed["t"]][0]]
+            nblk = collections.Counter(tuple(a) for v in byid.values() for a in {tuple(x) for x in v})
+            idx = [k for k, ed in enumerate(e["edges"]) if byid.get(ed["h"]) and byid.get(ed["t"])
+                   and byid[ed["h"]][-1] != byid[ed["t"]][0] and nblk[tuple(byid[ed["h"]][-1])] == 1]
             if not idx:
                 continue
             e["edges"].pop(idx[0])
